@@ -294,19 +294,20 @@ def builders(cfg, crate, rep, tables):
     lits = [sv for sv, node, f, c in I.structs if (sv.adt or "").endswith("cert::EndEntity")]
     okl = len(lits) == 1 and ss and core(lits[0].fields["key_pair"]).r() == core(ss[0][1]).r()
     rep.ob("C18.builders", "%s|%s" % (cfg, fn), ok and okl, "the end-entity certificate is issued for a fresh key of the selected algorithm by the CA's certificate and the CA's key; the fresh key is kept with it", found=[a.r()[:80] for a in ss[0]] if ss else None)
-    # to_key_pair table
+    # to_key_pair table: the returned key, specialised for every variant of the option enum (whatever the shape of the
+    # dispatch: one arm each, or a (document, algorithm) pair selected first and loaded once)
+    from interp import specialise, variant_assignment
     fn = "cert::KeyPairAlgorithm::to_key_pair"
     I, out = muts_of(fn)
-    v = core(out["value"])
+    v = out["value"]
     tab = {}
-    if isinstance(v, PhiV):
-        for c, x in v.alts:
-            vs = [a[2] for a in F.atoms(c) if a[0] == "variant"]
-            algs = sorted({r.split("::")[-1] for r in roots(x) if r.startswith("def:rcgen::PKCS_")})
-            be = sorted({r.split("::")[-1] for r in roots(x) if r.startswith("def:") and "::signature::" in r})
-            gens = sorted({c_.split("::")[-2] + "::" + c_.split("::")[-1] for c_ in calls_of(x) if "generate" in c_ and c_ not in I.inlined})
-            if vs:
-                tab[vs[0]] = (algs, be, gens)
+    adt = crate.adts.get("cert::KeyPairAlgorithm") or {}
+    for var in [x["name"] for x in adt.get("variants", [])]:
+        x = specialise(v, variant_assignment(v, "self", var))
+        algs = sorted({r.split("::")[-1] for r in roots(x) if r.startswith("def:rcgen::PKCS_")})
+        be = sorted({r.split("::")[-1] for r in roots(x) if r.startswith("def:") and "::signature::" in r})
+        gens = sorted({c_.split("::")[-2] + "::" + c_.split("::")[-1] for c_ in calls_of(x) if "generate" in c_ and c_ not in I.inlined})
+        tab[var] = (algs, be, gens)
     want = {
         "Rsa": (["PKCS_RSA_SHA256"], [], ["KeyPair::generate_for"]),
         "Ed25519": (["PKCS_ED25519"], [], ["Ed25519KeyPair::generate_pkcs8"]),
